@@ -35,7 +35,7 @@ Definition chk (prop fam : bytes) (c o : value) : bool :=
   if beq prop (B "C16") then chk_C16 c o
   else if beq prop (B "C01") then chk_C01 fam c o
   else if beq prop (B "C02") then (if beq fam (B "sock") then chk_C02 c o else true)
-  else if beq prop (B "C03") then (if beq fam (B "sock") then chk_C03 c o else true)
+  else if beq prop (B "C03") then (if beq fam (B "sock") then chk_C03 c o else if beq fam (B "tls") then chk_C20 c o else true)
   else if beq prop (B "C04") then (if beq fam (B "sock") || beq fam (B "srv") then chk_C04 c o else true)
   else if beq prop (B "C05") || beq prop (B "C06") then (if beq fam (B "srv") then chk_route c o else if beq fam (B "srvm") then chk_route_multi c o
                                                            else if beq fam (B "srvi") then (match c with VL [_; inner] => chk_route_multi inner o | _ => true end) else true)
@@ -47,7 +47,7 @@ Definition chk (prop fam : bytes) (c o : value) : bool :=
   else if beq prop (B "C10") then (if beq fam (B "lifed") then chk_C10_lifed c o else if beq fam (B "life") then chk_C10_life c o
                                         else if beq fam (B "proxy") then chk_C11 c o else if beq fam (B "tls") then chk_C20 c o else true)
   else if beq prop (B "C11") then (if beq fam (B "fs") then chk_C11_fs c o else chk_C11 c o)
-  else if beq prop (B "C20") then (if beq fam (B "tls") then chk_C20 c o else true)
+  else if beq prop (B "C20") then (if beq fam (B "tls") then chk_C20 c o else if beq fam (B "tlsraw") then chk_tlsraw c o else true)
   else if beq prop (B "C15") then (if beq fam (B "slot") then chk_C15 c o else if beq fam (B "slotm") then chk_C15m c o else true)
   else if beq prop (B "C17") then chk_C17 fam c o
   else if beq prop (B "C14") then (if beq fam (B "copier") then chk_C14 c o else true)
